@@ -1964,7 +1964,15 @@ impl CompileState<'_> {
                     let fc_thir = self.lower_recall_call(fc, cmd)?;
                     thir::StmtKind::Recall(fc_thir)
                 }
-                (StmtKind::DebugAssert(e), _) => {
+                // Not in finish blocks/functions: a failing assertion there would panic after
+                // facts were written and effects emitted.
+                (
+                    StmtKind::DebugAssert(e),
+                    StatementContext::Action(_)
+                    | StatementContext::PureFunction(_)
+                    | StatementContext::CommandPolicy(_)
+                    | StatementContext::CommandRecall(_),
+                ) => {
                     let e = self.lower_expression(e)?;
                     let _: VType = types::check_type(e.vtype.clone(), TypeKind::Bool.nowhere())
                         .map_err(|e| self.err(e))?;
